@@ -26,8 +26,10 @@ FORBIDDEN = re.compile(r"\bsorry\b|\badmit\b|^\s*axiom\s|native_decide|bv_decide
 
 GOENV = dict(os.environ, GOWORK="off", GOFLAGS="-mod=mod", GOPROXY="off", GOSUMDB="off", GOTOOLCHAIN="local")
 
-sys.path.insert(0, os.path.join(VERIF, "bin"))
-from props import PROPS  # noqa: E402
+
+
+def load_props(prop):
+    return json.load(open(os.path.join(VERIF, "bin", "props", prop + ".json")))
 
 
 def sh(cmd, cwd=None, env=None, timeout=None):
@@ -86,7 +88,7 @@ def main():
     if tier not in ("quick", "thorough"):
         tier = os.environ.get("VERIF_TIER", "quick")
     seed = int(os.environ.get("VERIF_SEED", "1") or "1")
-    cfg = PROPS[prop]
+    cfg = load_props(prop)
     t0 = time.time()
     os.makedirs(os.path.join(VERIF, "evidence"), exist_ok=True)
     os.makedirs(os.path.join(VERIF, "replays"), exist_ok=True)
@@ -117,7 +119,8 @@ def main():
                 failures.append(("proof", "extract:failed", "fact extraction from /repo failed (source shape changed):\n" + out[-3000:], None))
             else:
                 proof["extracted_facts"] = out.strip().splitlines()[-1] if out.strip() else "ok"
-        # Lean: property theorems + driver
+        # Lean: root files / driver dispatch from the directory listing, property theorems + driver
+        sh([sys.executable, os.path.join(VERIF, "bin", "gen_roots.py")], env=dict(os.environ, VERIF_DIR=VERIF))
         targets = list(cfg["lean_modules"]) + ["hermes_driver"]
         rc, out = sh(["lake", "build"] + targets, cwd=LEAN, timeout=3000)
         lean_ok = rc == 0
